@@ -265,6 +265,41 @@ def no_shared_memory(src, res, opd, ctx, opname):
     return True
 
 
+def alias_check(sources, res, opd, ctx, opname):
+    """An index derived from others must behave as its own array from then on: mutating the result in place
+    (shift_common, update, append) must leave every source index exactly as it was. Call last: `res` is consumed."""
+    snaps = [(src, key_of(src)) for src in sources]
+
+    def verify(step):
+        for src, k in snaps:
+            if key_of(src) != k:
+                ctx.v("C06", "%s:source-changed-through-result" % opname, opd,
+                      "after %s on the RESULT of %s the source index changed from %r to %r" % (step, opname, describe_key(k), describe_key(key_of(src))))
+                return False
+        return True
+
+    try:
+        shape = tuple(res.shape)
+        if len(shape) > 2:
+            return
+        v = next(x for x in COMMONS if x != res.common)
+        res.shift_common(v)
+        if not verify("shift_common(%r)" % (v,)):
+            return
+        if shape and shape[0] > 0 and all(e > 0 for e in shape):
+            cell = (0,) * len(shape)
+            newv = 1 if res.common != 1 else 2
+            res.update({(newv,) + cell[1:]: numpy.array([0], dtype=U32)})
+            if not verify("update"):
+                return
+        if len(shape) >= 1:
+            o = numpy.full((1,) + shape[1:], 2, dtype=numpy.int64)
+            res.append(M.build_index(o, 0))
+            verify("append")
+    except Exception as e:  # noqa
+        ctx.v("C06", "%s:alias-check-raised" % opname, opd, "mutating the result raised %r" % (e,))
+
+
 # ----------------------------------------------------------------------------- menus
 
 def cells_of(shape):
@@ -366,6 +401,7 @@ def expand(key, cfg, reverse=False, prune=None):
         check_result(r, d, opd, ctx, "copy")
         no_shared_memory(s, r, opd, ctx, "copy")
         unchanged(key, s, "receiver", opd, ctx, "copy", prop="C17")
+        alias_check([s], r, opd, ctx, "copy")
     except Exception as e:  # noqa
         ctx.v("C06", "copy:raised", opd, repr(e))
 
@@ -439,6 +475,7 @@ def expand(key, cfg, reverse=False, prune=None):
             unchanged(key, s, "receiver", opd, ctx, "filtered", prop="C17")
             if not numpy.array_equal(mask, m0):
                 ctx.v("C17", "filtered:mask-modified", opd, "mask changed")
+            alias_check([s], r, opd, ctx, "filtered")
         except Exception as e:  # noqa
             ctx.v("C06", "filtered:raised", opd, repr(e))
 
@@ -467,6 +504,7 @@ def expand(key, cfg, reverse=False, prune=None):
                 unchanged(key, s, "receiver", opd, ctx, "reindexed", prop="C17")
                 if m is not None and m_arg != m:
                     ctx.v("C17", "reindexed:mapping-modified", opd, "mapping changed to %r" % (m_arg,))
+                alias_check([s], r, opd, ctx, "reindexed")
             except Exception as e:  # noqa
                 ctx.v("C06", "reindexed:raised", opd, repr(e))
 
@@ -530,6 +568,7 @@ def expand(key, cfg, reverse=False, prune=None):
                                 if copy:
                                     no_shared_memory(s, r, opd, ctx, "column_stack")
                                     no_shared_memory(other, r, opd, ctx, "column_stack")
+                                alias_check([s, other], r, opd, ctx, "column_stack")
                             except Exception as e:  # noqa
                                 ctx.v("C06", "column_stack:raised", opd, repr(e))
 
@@ -586,6 +625,7 @@ def _expand_slicing(key, d, fresh, ctx):
                 unchanged(key, s, "receiver", opd, ctx, "sliced", prop="C17")
                 if args != snap:
                     ctx.v("C17", "sliced:order-modified", opd, "order lists changed to %r" % (args,))
+                alias_check([s], r, opd, ctx, "sliced")
             except Exception as e:  # noqa
                 ctx.v("C06", "sliced:raised", opd, repr(e))
     # slices1d: exactly one slice per combination of higher coordinates, each equal to dense[:, c, d...]
@@ -605,6 +645,8 @@ def _expand_slicing(key, d, fresh, ctx):
             if coords in want:
                 check_result(sl, d[(slice(None),) + coords], dict(opd, coords=list(coords)), ctx, "slices1d")
         unchanged(key, s, "receiver", opd, ctx, "slices1d", prop="C17")
+        for coords, sl in seen.items():
+            alias_check([s], sl, dict(opd, coords=list(coords)), ctx, "slices1d")
     except Exception as e:  # noqa
         ctx.v("C06", "slices1d:raised", opd, repr(e))
 
